@@ -16,7 +16,7 @@ import corpus
 import genjs
 from parts import parsetie, texts as T
 
-SPEC = dict(gen=['tables', 'lexdata', 'actions'], props=['CalmVerif.Props.C12'], drivers=['drv_lex', 'drv_parse'], audit='Audit/C12.lean')
+SPEC = dict(gen=['tables', 'lexdata', 'actions'], props=['CalmVerif.Props.C12', 'CalmVerif.Props.C12parse', 'CalmVerif.Props.C12act', 'CalmVerif.Props.C12term', 'CalmVerif.Props.C12all'], drivers=['drv_lex', 'drv_parse'], audit='Audit/C12.lean')
 
 LEX_ALPHA = list("ab1 \n\t/*\"'\\{}();=+-.[],<>!&|?:") + ['\r', ' ', '\xa0', 'é', '0x', 'e', '﻿', '　', '//', '/*', '*/',
                                                              'in ', 'if', 'var ', 'return', '\\u', '\\x', '\\\n', '++', '/=', 'get ', '$', '_', '😀']
